@@ -1,5 +1,5 @@
 #!/usr/bin/env python3
-"""Apply a patch (or a sed-style python edit) to /repo, run checks, revert.  Development aid only:
+"""Development aid: apply a patch to a scratch worktree of /repo (never to /repo itself), run checks against it.
    usage: mutate.py <patch.diff> <PID> [<PID>...] [--tier quick] [--tests]"""
 import subprocess, sys, os
 args = sys.argv[1:]
@@ -10,13 +10,20 @@ if "--tier" in args:
 if "--tests" in args:
     args.remove("--tests"); tests = True
 patch, pids = os.path.abspath(args[0]), args[1:]
-assert subprocess.run(["git", "-C", "/repo", "status", "--porcelain", "--untracked-files=no"], capture_output=True).stdout.strip() == b"", "/repo dirty"
-subprocess.check_call(["git", "-C", "/repo", "apply", patch])
+WT = os.environ.get("VMVERIF_MUT_WT", "/tmp/vmm-mut")
+if not os.path.isdir(WT):
+    subprocess.check_call(["git", "-C", "/repo", "worktree", "add", "--detach", WT, "HEAD"], stdout=subprocess.DEVNULL)
+subprocess.check_call(["git", "-C", WT, "checkout", "-q", "--detach", subprocess.check_output(["git", "-C", "/repo", "rev-parse", "HEAD"]).decode().strip()])
+subprocess.check_call(["git", "-C", WT, "checkout", "--", "."])
+subprocess.check_call(["git", "-C", WT, "apply", patch])
+rcs = {}
 try:
     if tests:
-        r = subprocess.run("cd /repo && cargo test --workspace --no-fail-fast --offline 2>&1 | grep -E '^test result|FAILED|failed' | head", shell=True)
+        subprocess.run("cd %s && cargo test --workspace --no-fail-fast --offline 2>&1 | grep -E '^test result|FAILED|failed' | head" % WT, shell=True)
     for pid in pids:
-        r = subprocess.run([os.path.join(os.path.dirname(os.path.abspath(__file__)), "vmverif"), "check", pid, "--tier", tier])
+        r = subprocess.run([os.path.join(os.path.dirname(os.path.abspath(__file__)), "vmverif"), "check", pid, "--tier", tier],
+                           env=dict(os.environ, VMVERIF_REPO=WT, VMVERIF_PLAYBACKS="0"))
+        rcs[pid] = r.returncode
         print("== %s on %s: exit %d" % (pid, os.path.basename(patch), r.returncode), flush=True)
 finally:
-    subprocess.check_call(["git", "-C", "/repo", "checkout", "--", "."])
+    subprocess.check_call(["git", "-C", WT, "checkout", "--", "."])
